@@ -134,6 +134,18 @@ def load_corpus(pid):
     return cases
 
 
+def restore_committed_gen(pid):
+    """put the last committed lean/NV/Gen/<pid>.lean back (True when that changed the file)"""
+    import subprocess
+    rel = "lean/NV/Gen/%s.lean" % pid
+    r = subprocess.run(["git", "-C", E.VERIF, "show", "HEAD:" + rel], capture_output=True, text=True)
+    path = os.path.join(E.VERIF, rel)
+    if r.returncode != 0 or not r.stdout or (os.path.exists(path) and open(path).read() == r.stdout):
+        return False
+    open(path, "w").write(r.stdout)
+    return True
+
+
 def write_replay(prop, seed, kind, case, expected, observed, extra=None):
     d = os.path.join(E.VERIF, "replays")
     os.makedirs(d, exist_ok=True)
@@ -287,6 +299,14 @@ def run_check(prop, tier, seed, replay=None):
                          "detail": "\n".join(errs[:10]) or out[-1500:]})
         # the model driver is needed for everything else
         ok2, out2 = E.lean_build(["nvdrive"])
+        if not ok2 and restore_committed_gen(prop.id):
+            # the executable model does not elaborate over the regenerated NV/Gen: fall back to the last committed
+            # Gen file for the MODEL only, so that the search stage still runs (the oracle judges the implementation's
+            # traces; the broken obligation is already recorded and is reported whatever the search finds)
+            problems.append({"kind": "tie-broken", "name": "model-over-regenerated-Gen",
+                             "detail": "nvdrive does not build over the regenerated NV/Gen/%s.lean; the committed one is "
+                                       "used for the search stage\n%s" % (prop.id, out2[-800:])})
+            ok2, out2 = E.lean_build(["nvdrive"])
         if not ok2:
             path = write_replay(prop, seed, "obligation-broken", None, "model builds against regenerated NV/Gen",
                                 out2[-2000:], {"theorem": "nvdrive (model no longer elaborates over NV/Gen)"})
